@@ -4,6 +4,8 @@ import KdVerif.Proofs.Trunc
 import KdVerif.Proofs.Final
 import KdVerif.Proofs.EndToEnd
 import KdVerif.Proofs.PyIRRdKd
+import KdVerif.Gen.PyIRCli
+import KdVerif.Proofs.PyIRCli
 /-
   C06 — truncated dumps: parsing terminates and reports a prefix of the full result.
 
@@ -381,5 +383,76 @@ theorem seek_until_ir_eof (tag : Bytes) (ht : tag ≠ []) (r : Reader) (hr : r.r
   rw [source_is_expected_ir.1]
   show ∃ r1, PyIRRd.runSeek PyIRRd.Expected.seekUntil tag r = (.error .eof, r1)
   rw [PyIRRd.runSeek_expected]; exact seekUntil_nil_fails tag ht r hr
+
+end KdVerif.C06
+
+/-! ### Translation tie: `print_with_count` itself
+
+  (`tools/gen_pyir_cli.py` → `Gen/PyIRCli.lean`, IR and interpreter `Model/PyIRCli`, expected term `Spec/PyIRCliExpected`.)
+  `count_prefix` / `e2e_count_prefix` speak about the hand model `printWithCount`; here the loop of `__main__.py` —
+  `i = 0; for obj in generator: if i == count: break; print(obj); i += 1` — is translated from the source text on every run
+  and interpreted: a generator is the items it will deliver and the exception it ends with, if any (one `next()` per round of
+  the loop).  The loop asks for item number `count` BEFORE it compares: an exception the generator raises while producing
+  that item surfaces although `count` lines have been printed; once the item is there the loop breaks and the generator is
+  never asked again. -/
+namespace KdVerif.C06
+open KdVerif.PyIRCli
+
+/-- **The translated loop is the term the theorems below were proved for**, and the translator met nothing outside the
+    subset in `print_with_count`. -/
+theorem cli_source_is_expected_ir :
+    Gen.PyIRCli.printWithCount = PyIRCli.Expected.printWithCount ∧ Gen.PyIRCli.pwcNotes = [] := by decide
+
+/-- **`print_with_count` of the source, interpreted, is the hand model** — for every list of items, every way the
+    generator ends and every integer `count`: it prints exactly `printWithCount items count`, and the generator's exception
+    leaves the call unless the loop broke, i.e. unless `0 ≤ count < number of items` (item number `count` was pulled, the
+    loop broke on it, nothing was asked of the generator afterwards). -/
+theorem print_with_count_ir_eq_model {α : Type} (items : List α) (err : Option PyErr) (count : Int) :
+    runPwc Gen.PyIRCli.printWithCount (items, err) count =
+      (printWithCount items count, if 0 ≤ count ∧ count < items.length then none else err) := by
+  rw [cli_source_is_expected_ir.1]; exact runPwc_expected items err count
+
+/-- `count = -1` (the default of `-c`; any negative `count`): everything the generator delivers is printed, and its
+    exception — if it ends with one — surfaces. -/
+theorem print_with_count_ir_negative {α : Type} (items : List α) (err : Option PyErr) (count : Int) (h : count < 0) :
+    runPwc Gen.PyIRCli.printWithCount (items, err) count = (items, err) := by
+  rw [print_with_count_ir_eq_model, (count_prefix items count).2.1 h]
+  have : ¬ (0 ≤ count ∧ count < (items.length : Int)) := by omega
+  simp only [this, if_false]
+
+/-- … in particular for the default. -/
+theorem print_with_count_ir_all {α : Type} (items : List α) (err : Option PyErr) :
+    runPwc Gen.PyIRCli.printWithCount (items, err) (-1) = (items, err) :=
+  print_with_count_ir_negative items err (-1) (by omega)
+
+/-- `0 ≤ count`: the first `count` items are printed; the generator's exception surfaces exactly when it has no item
+    number `count` to deliver (`items.length ≤ count`: the loop ran into the end). -/
+theorem print_with_count_ir_take {α : Type} (items : List α) (err : Option PyErr) (count : Int) (h : 0 ≤ count) :
+    runPwc Gen.PyIRCli.printWithCount (items, err) count =
+      (items.take count.toNat, if count < items.length then none else err) := by
+  rw [print_with_count_ir_eq_model, (count_prefix items count).1 h]
+  simp only [h, true_and]
+
+/-- **An exception raised while producing item number `count` surfaces although `count` items were printed**: the loop
+    pulls before it compares. -/
+theorem print_with_count_ir_raise_at_count {α : Type} (items : List α) (e : PyErr) :
+    runPwc Gen.PyIRCli.printWithCount (items, some e) items.length = (items, some e) := by
+  rw [print_with_count_ir_take items (some e) items.length (by omega)]
+  simp
+
+/-- … and one item later it does not: the loop broke on item number `count` and never asked again. -/
+theorem print_with_count_ir_no_raise_behind_count {α : Type} (items : List α) (x : α) (rest : List α) (e : PyErr) :
+    runPwc Gen.PyIRCli.printWithCount (items ++ x :: rest, some e) items.length = (items, none) := by
+  rw [print_with_count_ir_take (items ++ x :: rest) (some e) items.length (by omega)]
+  simp
+  omega
+
+-- non-vacuity: the translated loop on concrete generators
+example : runPwc Gen.PyIRCli.printWithCount ([10, 20, 30], some .eof) 2 = ([10, 20], none) := by decide
+example : runPwc Gen.PyIRCli.printWithCount ([10, 20, 30], some .eof) 3 = ([10, 20, 30], some .eof) := by decide
+example : runPwc Gen.PyIRCli.printWithCount ([10, 20, 30], some .eof) 0 = ([], none) := by decide
+example : runPwc Gen.PyIRCli.printWithCount (([] : List Nat), some .eof) 0 = ([], some .eof) := by decide
+example : runPwc Gen.PyIRCli.printWithCount ([10, 20, 30], some .eof) (-1) = ([10, 20, 30], some .eof) := by decide
+example : runPwc Gen.PyIRCli.printWithCount ([10, 20, 30], none) 7 = ([10, 20, 30], none) := by decide
 
 end KdVerif.C06
